@@ -261,6 +261,11 @@ def run(ctx):
 
     clause_vm_told_before_reenable(r, mir)
 
+    # ------------------------------------------------------------------ R07.6 (shared with C16 R16.2)
+    # set_attribute replaces the existing attribute whatever its spelling in the source; remove_attribute removes all duplicates
+    from .c16 import rule_attr_lookup
+    rule_attr_lookup(ctx, mir, rid="R07.6")
+
     ctx.not_decided += ["that the composition of arbitrary operation scripts equals the reference edit (run-time)"]
     return ("API-to-mutation mapping read from the expanded syntax tree (28 token methods cross-checked as siblings and against the documented table, "
             "9 Element operations), serialisation order of mutated tokens, transfer of element-level end-tag edits, and the emission gate for removed content.")
